@@ -44,6 +44,23 @@ Theorem C17_toplevel_registered : forall all s ms t d m it,
 Proof. exact schema_item_registered. Qed.
 Print Assumptions C17_toplevel_registered.
 
+(** Double registration (with --split-internal the namespace packages' metamini.go and package meta register the
+    same items, in whichever order the packages are initialised) is idempotent: registering again items whose
+    names are registered changes neither the ordered list nor -- lookups being functions of it -- any lookup by
+    name or by tag; in particular registering the whole table twice gives the registry. *)
+Theorem C17_reregistration_changes_nothing : forall extra reg,
+  (forall it, In it extra -> In (it_name it) (map it_name reg)) ->
+  fold_left fill extra reg = reg /\
+  (forall n, by_name (fold_left fill extra reg) n = by_name reg n) /\
+  (forall t, by_tag (fold_left fill extra reg) t = by_tag reg t).
+Proof. intros extra reg H. rewrite (fold_fill_absorb extra reg H). auto. Qed.
+Print Assumptions C17_reregistration_changes_nothing.
+
+Theorem C17_registered_twice : forall all s ms,
+  fold_left fill (cands_from all 0 s ms ++ cands_from all 0 s ms) [] = registry all s ms.
+Proof. exact registry_twice. Qed.
+Print Assumptions C17_registered_twice.
+
 (** Lookup by name returns the item with that name -- for every registered item, with no hypothesis. *)
 Theorem C17_lookup_by_name : forall all s ms it,
   In it (registry all s ms) -> by_name (registry all s ms) (it_name it) = Some it.
